@@ -11,6 +11,108 @@ import (
 
 func init() { register("C16", checkC16) }
 
+// resultCells: local structs found to hold the chosen entry (see phiSitesVia); reset per run of the rule.
+var resultCells = map[*ssa.Alloc]bool{}
+
+// structCellSites: cell is a local struct variable of the selection; the sites at which its field fidx gets a value:
+// a whole-struct assignment from a constructor `h(elem)` whose field fidx is a field of its parameter (the element),
+// or a direct field assignment. ok=false when an assignment is not of these shapes.
+func structCellSites(cell *ssa.Alloc, fidx int, v ssa.Value) ([]acsSite, bool) {
+	var out []acsSite
+	n := 0
+	for _, ref := range nonDebugRefs(cell) {
+		switch x := ref.(type) {
+		case *ssa.Store:
+			if x.Addr != ssa.Value(cell) {
+				continue
+			}
+			n++
+			c, isC := x.Val.(*ssa.Call)
+			if !isC {
+				if k, isK := x.Val.(*ssa.Const); isK && k.Value == nil {
+					continue // the zero value: both results empty
+				}
+				return nil, false
+			}
+			h := calleeOf(c)
+			if h == nil || h.Blocks == nil || len(c.Call.Args) != 1 || len(h.Params) != 1 {
+				return nil, false
+			}
+			// the element handed to the constructor
+			var slot *ssa.IndexAddr
+			arg := c.Call.Args[0]
+			for hop := 0; hop < 3 && slot == nil; hop++ {
+				a, isU := arg.(*ssa.UnOp)
+				if !isU || a.Op != token.MUL {
+					break
+				}
+				switch y := a.X.(type) {
+				case *ssa.IndexAddr:
+					slot = y
+				case *ssa.Alloc:
+					// the range variable: a copy of the element
+					if sts := gFacts.storesToCell(y); len(sts) == 1 {
+						arg = sts[0]
+						continue
+					}
+				}
+				break
+			}
+			if slot == nil {
+				return nil, false
+			}
+			// what the constructor puts into field fidx: a field of its parameter
+			elemField := ""
+			for _, b := range h.Blocks {
+				for _, in := range b.Instrs {
+					st, isSt := in.(*ssa.Store)
+					if !isSt {
+						continue
+					}
+					fa, isFA := st.Addr.(*ssa.FieldAddr)
+					if !isFA || fa.Field != fidx {
+						continue
+					}
+					if _, isLocal := fa.X.(*ssa.Alloc); !isLocal {
+						continue
+					}
+					switch y := st.Val.(type) {
+					case *ssa.Field:
+						if y.X == ssa.Value(h.Params[0]) {
+							if stt, isS := y.X.Type().Underlying().(*types.Struct); isS {
+								elemField = fname(stt.Field(y.Field))
+							}
+						}
+					case *ssa.UnOp:
+						if fa2, isFA2 := y.X.(*ssa.FieldAddr); isFA2 {
+							if pc, isAl := fa2.X.(*ssa.Alloc); isAl {
+								if sts := gFacts.storesToCell(pc); len(sts) == 1 && sts[0] == ssa.Value(h.Params[0]) {
+									elemField = fname(fieldVar(fa2.X.Type(), fa2.Field))
+								}
+							}
+						}
+					}
+				}
+			}
+			if elemField == "" {
+				return nil, false
+			}
+			out = append(out, acsSite{val: v, pred: x.Block(), slot: slot, field: elemField})
+		case *ssa.FieldAddr:
+			if x.Field != fidx {
+				continue
+			}
+			for _, r2 := range nonDebugRefs(x) {
+				if st, isSt := r2.(*ssa.Store); isSt && st.Addr == ssa.Value(x) {
+					n++
+					out = append(out, acsSite{val: st.Val, pred: st.Block()})
+				}
+			}
+		}
+	}
+	return out, n > 0
+}
+
 type acsSite struct {
 	val  ssa.Value
 	pred *ssa.BasicBlock
@@ -49,6 +151,19 @@ func phiSitesVia(v ssa.Value, from *ssa.BasicBlock, seen map[ssa.Value]bool, out
 							phiSitesVia(ret.Results[ex.Index], ret.Block(), seen, out, c, depth+1)
 						}
 					}
+					return
+				}
+			}
+		}
+	}
+	// a field of a local struct that holds the chosen entry (`chosen = newConsumerEndpoint(acs)` ... `return chosen.url,
+	// chosen.binding`): the assignments to the struct are the sites
+	if ld, ok := v.(*ssa.UnOp); ok && ld.Op == token.MUL && depth < 2 && via == nil {
+		if fa, isFA := ld.X.(*ssa.FieldAddr); isFA {
+			if cell, isCell := fa.X.(*ssa.Alloc); isCell && cell.Parent() == ld.Parent() {
+				if sites, okc := structCellSites(cell, fa.Field, v); okc {
+					resultCells[cell] = true
+					*out = append(*out, sites...)
 					return
 				}
 			}
@@ -373,6 +488,8 @@ func checkC16(cx *Ctx, r *Report) {
 					if c, ok := stripNot(a.Cond).(*ssa.BinOp); ok && (res0phis[c.X] || res0phis[c.Y]) {
 						firstCand = true
 					}
+				case a.Op == "EMPTY" && !a.Neg && emptyOfResultCell(a):
+					nothingYet = true
 				case a.Op == "EMPTY" && !a.Neg && strings.HasPrefix(a.A, "phi@"):
 					if c, ok := stripNot(a.Cond).(*ssa.BinOp); ok {
 						if res0phis[unLen(c.X)] || res0phis[unLen(c.Y)] {
@@ -986,4 +1103,22 @@ func (cx *Ctx) indexPredicateKind(ic *ssa.Call, sel *ssa.Function, helpers map[*
 		}
 	}
 	return 0
+}
+
+// emptyOfResultCell: the atom tests a field of a local struct that holds the chosen entry for emptiness.
+func emptyOfResultCell(a Atom) bool {
+	bo, ok := stripNot(a.Cond).(*ssa.BinOp)
+	if !ok {
+		return false
+	}
+	for _, o := range []ssa.Value{unLen(bo.X), unLen(bo.Y)} {
+		if ld, isLd := o.(*ssa.UnOp); isLd && ld.Op == token.MUL {
+			if fa, isFA := ld.X.(*ssa.FieldAddr); isFA {
+				if cell, isCell := fa.X.(*ssa.Alloc); isCell && resultCells[cell] {
+					return true
+				}
+			}
+		}
+	}
+	return false
 }
